@@ -144,7 +144,8 @@ class Report:
                 rule, {"matched": 0, "holds": 0, "violated": 0, "undecided": 0, "assumed": 0}
             )
             st["floor"] = n
-            if st["matched"] < n:
+            if st["matched"] < n and not new_violations:
+                # (with a violation reported the run does not pass anyway; instances of a violated class are deduplicated)
                 self.errors.append(
                     f"instance floor: rule {rule} matched {st['matched']} instances, expected at least {n}"
                 )
